@@ -128,6 +128,7 @@ func patchTreasuresOneSwamp(ctx context.Context, g Gateway, in *hydrapb.PatchTre
 
 	results := make([]*hydrapb.PatchResult, 0, len(in.GetPatches()))
 	for _, patch := range in.GetPatches() {
+		verifhook.Point("gateway.patchTreasures.beforeKey", int64(len(results)))
 		ops, opsErr := protoOpsToMsgpackpatchOps(patch.GetOps())
 		if opsErr != nil {
 			results = append(results, &hydrapb.PatchResult{
